@@ -258,7 +258,7 @@ def structural_boxes(E):
 
 def harnesses(tier):
     q = tier == "quick"
-    T = 600 if q else 2400
+    T = 600 if q else 900
     hs = []
     for cls in ('cat.Ob', 'rigid.Ob', 'monoidal.Ty', 'rigid.Ty'):
         hs.append(H("obs_" + cls.replace('.', '_'), obs, dict(cls=cls), FUNCS,
